@@ -303,6 +303,16 @@ func (p *Prog) lin(v ssa.Value, d int) Lin {
 		_, suffix := p.version(p.PathAtom(m), p.linWhere(x), true)
 		return LinAtom("M(" + p.PathAtom(m) + ")[" + p.lin(x.Index, d+1).String() + "]" + suffix)
 	case *ssa.Phi:
+		// inside a path-condition walk: the operand contributed by the edge the path took (join phis only)
+		if e, ok := p.phiEnv[x]; ok && d < 40 {
+			return p.lin(e, d+1)
+		}
+		// a value that leaves a (former) helper together with an ok flag: a join with a sibling boolean phi of
+		// constants, where the operands on the flag's false edges are constants (the zero value callers must not use):
+		// the value of the edges on which the flag is true, when they agree
+		if l, ok := p.commaOkJoin(x, d); ok {
+			return l
+		}
 		if p.inLinPhi == nil {
 			p.inLinPhi = map[*ssa.Phi]bool{}
 		}
@@ -564,7 +574,14 @@ func (p *Prog) PathCond(fn *ssa.Function, from *ssa.BasicBlock, site ssa.Instruc
 			if !isPh {
 				break
 			}
-			if !isBool(ph.Type()) {
+			// a loop-carried phi holds values of earlier iterations, which an acyclic path does not see: joins only
+			loopCarried := false
+			for _, pb := range s.Preds {
+				if s.Dominates(pb) {
+					loopCarried = true
+				}
+			}
+			if loopCarried {
 				continue
 			}
 			for k, pb := range s.Preds {
@@ -619,6 +636,79 @@ func (p *Prog) PathCond(fn *ssa.Function, from *ssa.BasicBlock, site ssa.Instruc
 		}
 		return cond
 	}
+	// correlate: a branch on a boolean join phi with constant operands tells which incoming edges were possible; the
+	// sibling phis that agree on all of them are known too (a result and its ok flag leaving a helper together).
+	// It returns the phis it bound, for undoing.
+	correlate := func(cond ssa.Value, want bool) []*ssa.Phi {
+		for {
+			if u, ok := cond.(*ssa.UnOp); ok && u.Op == token.NOT {
+				cond, want = u.X, !want
+				continue
+			}
+			break
+		}
+		ph, ok := cond.(*ssa.Phi)
+		if !ok || !isBool(ph.Type()) {
+			return nil
+		}
+		if _, known := phiVal[ph]; known {
+			return nil
+		}
+		blk := ph.Block()
+		for _, pb := range blk.Preds {
+			if blk.Dominates(pb) {
+				return nil
+			}
+		}
+		var ks []int
+		for k, e := range ph.Edges {
+			if cb, isC := e.(*ssa.Const); isC && cb.Value != nil && cb.Value.Kind() == constant.Bool {
+				if constant.BoolVal(cb.Value) != want {
+					continue
+				}
+			}
+			ks = append(ks, k)
+		}
+		if len(ks) == 0 || len(ks) == len(ph.Edges) {
+			return nil
+		}
+		var bound []*ssa.Phi
+		for _, in := range blk.Instrs {
+			sib, isPh := in.(*ssa.Phi)
+			if !isPh {
+				break
+			}
+			if _, known := phiVal[sib]; known {
+				continue
+			}
+			v := sib.Edges[ks[0]]
+			same := true
+			for _, k := range ks[1:] {
+				if sib.Edges[k] != v {
+					same = false
+				}
+			}
+			if same {
+				phiVal[sib] = v
+				bound = append(bound, sib)
+			}
+		}
+		return bound
+	}
+	// what the branches that dominate the starting point established
+	if from != fn.Blocks[0] {
+		for d := from; d != nil && d.Idom() != nil; d = d.Idom() {
+			a := d.Idom()
+			ifi, isIf := a.Instrs[len(a.Instrs)-1].(*ssa.If)
+			if !isIf {
+				continue
+			}
+			d0, d1 := a.Succs[0].Dominates(from) && len(a.Succs[0].Preds) == 1, a.Succs[1].Dominates(from) && len(a.Succs[1].Preds) == 1
+			if d0 != d1 {
+				correlate(ifi.Cond, d0)
+			}
+		}
+	}
 	walkB = func(b *ssa.BasicBlock, c Conj) {
 		cur = b
 		if count > 4096 {
@@ -641,64 +731,85 @@ func (p *Prog) PathCond(fn *ssa.Function, from *ssa.BasicBlock, site ssa.Instruc
 		switch t := b.Instrs[len(b.Instrs)-1].(type) {
 		case *ssa.If:
 			for i, s := range b.Succs {
-				if onPath[s] {
-					continue
-				}
-				// a branch on the boolean result of a helper that is analysed as part of this function: the disjunction,
-				// over the helper's returns, of (the way to that return) and (what it returns)
-				cur = b
-				tc, want := resolve(t.Cond), i == 0
-				for {
-					if ng, isN := tc.(*negated); isN {
-						tc, want = ng.Value, !want
-						continue
+				func() {
+					if onPath[s] {
+						return
 					}
-					break
-				}
-				if cb, isC := tc.(*ssa.Const); isC && cb.Value != nil && cb.Value.Kind() == constant.Bool {
-					if constant.BoolVal(cb.Value) == want {
-						walk(s, c)
+					// a branch on the boolean result of a helper that is analysed as part of this function: the disjunction,
+					// over the helper's returns, of (the way to that return) and (what it returns)
+					cur = b
+					bound := correlate(t.Cond, i == 0)
+					defer func(bound []*ssa.Phi) {
+						for _, ph := range bound {
+							delete(phiVal, ph)
+						}
+					}(bound)
+					tc, want := resolve(t.Cond), i == 0
+					for {
+						if ng, isN := tc.(*negated); isN {
+							tc, want = ng.Value, !want
+							return
+						}
+						break
 					}
-					continue
-				}
-				if hd, ok := p.helperBoolDNF(tc, want, keep, 0); ok {
-					for _, hc := range hd {
-						saved := Conj{}
-						for k, v := range c {
-							saved[k] = v
-						}
-						consistent := true
-						for f, set := range hc {
-							if !c.and(Lit{Form: f, Set: set}) {
-								consistent = false
-							}
-						}
-						if consistent {
+					if cb, isC := tc.(*ssa.Const); isC && cb.Value != nil && cb.Value.Kind() == constant.Bool {
+						if constant.BoolVal(cb.Value) == want {
 							walk(s, c)
 						}
-						for k := range c {
-							delete(c, k)
+						return
+					}
+					if hd, ok := p.helperBoolDNF(tc, want, keep, 0); ok {
+						for _, hc := range hd {
+							saved := Conj{}
+							for k, v := range c {
+								saved[k] = v
+							}
+							consistent := true
+							for f, set := range hc {
+								if !c.and(Lit{Form: f, Set: set}) {
+									consistent = false
+								}
+							}
+							if consistent {
+								walk(s, c)
+							}
+							for k := range c {
+								delete(c, k)
+							}
+							for k, v := range saved {
+								c[k] = v
+							}
 						}
-						for k, v := range saved {
-							c[k] = v
+						return
+					}
+					lit := p.CondLit(tc, want)
+					if keep != nil && !keep(lit.Form) && len(phiVal) > 0 {
+						// the same test with the join phis replaced by what this path assigned: kept if the caller asked
+						// for that form (the phi form, which rules may name as well, has precedence)
+						p.phiEnv = phiVal
+						l2 := p.CondLit(tc, want)
+						p.phiEnv = nil
+						if keep(l2.Form) {
+							lit = l2
+						} else if truth, isConst := constLit(l2); isConst && !truth {
+							// with what this path assigned the test is decided: this edge cannot be taken
+							return
 						}
 					}
-					continue
-				}
-				lit := p.CondLit(tc, want)
-				if keep != nil && !keep(lit.Form) {
-					walk(s, c)
-					continue
-				}
-				prev, had := c[lit.Form]
-				if c.and(lit) {
-					walk(s, c)
-				}
-				if had {
-					c[lit.Form] = prev
-				} else {
-					delete(c, lit.Form)
-				}
+					if keep != nil && !keep(lit.Form) {
+						walk(s, c)
+						return
+					}
+					prev, had := c[lit.Form]
+					if c.and(lit) {
+						walk(s, c)
+					}
+					if had {
+						c[lit.Form] = prev
+					} else {
+						delete(c, lit.Form)
+					}
+				}()
 			}
 		default:
 			for _, s := range b.Succs {
@@ -1397,4 +1508,137 @@ func (p *Prog) helperBoolDNF(cond ssa.Value, want bool, keep func(string) bool, 
 		}
 	}
 	return out, true
+}
+
+// constLit: the literal is about a constant form (no atoms): whether it holds.
+func constLit(l Lit) (truth bool, isConst bool) {
+	formMu.Lock()
+	f, ok := formReg[l.Form]
+	formMu.Unlock()
+	if !ok || len(f.T) != 0 {
+		return false, false
+	}
+	switch {
+	case f.C < 0:
+		return l.Set&SNeg != 0, true
+	case f.C == 0:
+		return l.Set&SZero != 0, true
+	}
+	return l.Set&SPos != 0, true
+}
+
+func (p *Prog) commaOkJoin(x *ssa.Phi, d int) (Lin, bool) {
+	blk := x.Block()
+	if isBool(x.Type()) || len(x.Edges) < 2 || d > 40 {
+		return Lin{}, false
+	}
+	for _, pb := range blk.Preds {
+		if blk.Dominates(pb) {
+			return Lin{}, false
+		}
+	}
+	for _, in := range blk.Instrs {
+		flag, isPh := in.(*ssa.Phi)
+		if !isPh {
+			break
+		}
+		if flag == x || !isBool(flag.Type()) {
+			continue
+		}
+		var tr []int
+		okFlag, nFalse := true, 0
+		for k, e := range flag.Edges {
+			cb, isC := e.(*ssa.Const)
+			if !isC || cb.Value == nil || cb.Value.Kind() != constant.Bool {
+				okFlag = false
+				break
+			}
+			if constant.BoolVal(cb.Value) {
+				tr = append(tr, k)
+			} else {
+				nFalse++
+				if _, isConst := x.Edges[k].(*ssa.Const); !isConst {
+					okFlag = false
+				}
+			}
+		}
+		if !okFlag || len(tr) == 0 || nFalse == 0 {
+			continue
+		}
+		// ... provided every use of the value is behind a test of the flag (on its true side): otherwise the zero
+		// value of the false edges can be used, and the value is not "the success value"
+		if !usesGuardedBy(x, flag, 0) {
+			continue
+		}
+		first := p.lin(x.Edges[tr[0]], d+1)
+		same := true
+		for _, k := range tr[1:] {
+			if !p.lin(x.Edges[k], d+1).Equal(first) {
+				same = false
+			}
+		}
+		if same {
+			return first, true
+		}
+	}
+	return Lin{}, false
+}
+
+// usesGuardedBy: every instruction that uses v (through further phis) lies in a block dominated by the true side of
+// a branch on flag.
+func usesGuardedBy(v ssa.Value, flag *ssa.Phi, depth int) bool {
+	if depth > 6 || v.Referrers() == nil {
+		return false
+	}
+	// the blocks entered only when flag is true: the true side of `if flag`, the false side of `if !flag`
+	var guards []*ssa.BasicBlock
+	for _, r := range *flag.Referrers() {
+		switch x := r.(type) {
+		case *ssa.If:
+			if succ := x.Block().Succs[0]; x.Cond == ssa.Value(flag) && len(succ.Preds) == 1 {
+				guards = append(guards, succ)
+			}
+		case *ssa.UnOp:
+			if x.Op != token.NOT || x.Referrers() == nil {
+				continue
+			}
+			for _, r2 := range *x.Referrers() {
+				if ifi, isIf := r2.(*ssa.If); isIf && ifi.Cond == ssa.Value(x) {
+					if succ := ifi.Block().Succs[1]; len(succ.Preds) == 1 {
+						guards = append(guards, succ)
+					}
+				}
+			}
+		}
+	}
+	guarded := func(b *ssa.BasicBlock) bool {
+		for _, g := range guards {
+			if g.Dominates(b) {
+				return true
+			}
+		}
+		return false
+	}
+	for _, r := range *v.Referrers() {
+		if _, isDbg := r.(*ssa.DebugRef); isDbg {
+			continue
+		}
+		if ph, isPh := r.(*ssa.Phi); isPh {
+			// a further join: the incoming edge must come from a guarded block, or the joined value's uses are guarded
+			okEdge := true
+			for k, e := range ph.Edges {
+				if e == v && !guarded(ph.Block().Preds[k]) {
+					okEdge = false
+				}
+			}
+			if okEdge || usesGuardedBy(ph, flag, depth+1) {
+				continue
+			}
+			return false
+		}
+		if !guarded(r.Block()) {
+			return false
+		}
+	}
+	return true
 }
